@@ -215,4 +215,6 @@ def run(tier, replay=None):
         "log B = the same host calls with different payload bytes, hence equal LSNs, equal writer-epoch ids and different transaction ids/content",
         "trusted base: TLC, the harness' independent parser of the record framing, BLAKE3 collision-freeness",
     ]
+    import c11s  # segmented leg: rotated logs, manifest, writer-epoch ledger (WalSeg.tla / MC_C11s.tla / c11s.rs)
+    c11s.run_leg(ck, binp, tier, replay)
     return ck.finish()
